@@ -32,6 +32,22 @@ ALLOWED_BEFORE = {
 }
 
 
+def is_probe(facts, events, c, depth=0):
+    """an allowed read-only probe, or a function of the crate that consists of such probes only (`should_create(path)`)"""
+    if c in ALLOWED_BEFORE:
+        return True
+    body = facts.bodies.get(c)
+    if body is None or body.crate != "nomt" or depth > 3 or body.kind == "Closure":
+        return False
+    if touching_sites(events, body, facts):
+        return False
+    for b, t in body.calls():
+        cc = t.get("callee") or ""
+        if (cc.startswith("std::fs::") or cc.startswith("nomt::")) and not is_probe(facts, events, cc, depth + 1):
+            return False
+    return True
+
+
 def const_int(body, op, depth=0):
     """constant-fold an operand: literal/named constants and BitOr/BitAnd/Add of constants"""
     if op["k"] == "const":
@@ -177,7 +193,7 @@ def run(facts, rep, events, model):
             rep.check(ok, "D1", ws, "touch|%s" % what, "%s at %s in %s is not dominated by the success of Flock::lock: a second opener / creator could touch the directory's files without holding the lock" % (what, site, ws), site=site, detail="%s at %s after Flock::lock(..)?" % (what, site))
         for b, t in w.calls():
             c = t.get("callee") or ""
-            if b != lb and not w.is_cleanup(b) and not w.dominates(lb, b, removed=rem) and b not in set(w.err_blocks()) and (c.startswith("std::fs::") or c.startswith("nomt::")) and c not in ALLOWED_BEFORE:
+            if b != lb and not w.is_cleanup(b) and not w.dominates(lb, b, removed=rem) and b not in set(w.err_blocks()) and (c.startswith("std::fs::") or c.startswith("nomt::")) and not is_probe(facts, events, c):
                 if c in ("std::fs::OpenOptions::new", "std::fs::OpenOptions::read", "std::fs::OpenOptions::open", "std::fs::File::open"):
                     cls = {e.cls for e in events if e.body.id == w.id and e.bb == b}
                     if cls <= {"dir"}:
@@ -212,7 +228,7 @@ def run(facts, rep, events, model):
     # anything else before the lock must be an allowed probe
     for b, t in op.calls():
         c = t.get("callee") or ""
-        if b in reach and (c.startswith("std::fs::") or c.startswith("nomt::")) and c not in ALLOWED_BEFORE and b not in sites:
+        if b in reach and (c.startswith("std::fs::") or c.startswith("nomt::")) and not is_probe(facts, events, c) and b not in sites:
             if c in ("std::fs::OpenOptions::new", "std::fs::OpenOptions::read", "std::fs::OpenOptions::open"):
                 # only the directory handle itself
                 cls = {e.cls for e in events if e.body.id == op.id and e.bb == b}
@@ -291,11 +307,32 @@ def run(facts, rep, events, model):
     # try_lock_exclusive propagates the error of flock (cvt_r) : its result derives from cvt_r's
     tle = facts.body(TRY_LOCK)
     n += 1
-    def returns_cvt_r(b_, depth=0):
-        for r in trace(b_, {"l": 0}, extra_transparent=("core::result::Result::map",)):
-            if r.kind == "call" and str(r.what).endswith("cvt_r"):
+    def reports_errno(fid, depth=0):
+        fb = facts.bodies.get(fid)
+        if fb is None or depth > 3:
+            return False
+        for _b, t_ in fb.calls():
+            c_ = t_.get("callee") or ""
+            if c_.endswith("Error::last_os_error") or (c_ in facts.bodies and facts.bodies[c_].crate == "nomt" and reports_errno(c_, depth + 1)):
                 return True
-            if r.kind == "call" and depth < 3 and str(r.what) in facts.bodies and facts.bodies[str(r.what)].crate == "nomt" and returns_cvt_r(facts.bodies[str(r.what)], depth + 1):
+        return False
+
+    def returns_cvt_r(b_, depth=0):
+        """the function's result is the result of a helper that is handed a closure performing libc::flock and that turns the
+        -1 convention into `Error::last_os_error()` (today `cvt_r`), possibly through further helpers of the crate"""
+        for r in trace(b_, {"l": 0}, extra_transparent=("core::result::Result::map",)):
+            if r.kind != "call" or str(r.what) not in facts.bodies or facts.bodies[str(r.what)].crate != "nomt":
+                continue
+            takes_flock = False
+            for a in (r.obj or {}).get("args", []):
+                for x in trace(b_, a):
+                    if x.kind == "agg" and x.obj is not None and x.obj.get("ak") == "closure":
+                        cb_ = facts.bodies.get(x.obj.get("name"))
+                        if cb_ is not None and any((t_.get("callee") or "").endswith("::flock") and (t_.get("callee") or "").startswith("libc::") for _b, t_ in cb_.calls()):
+                            takes_flock = True
+            if takes_flock and reports_errno(str(r.what)):
+                return True
+            if depth < 3 and returns_cvt_r(facts.bodies[str(r.what)], depth + 1):
                 return True
         return False
 
@@ -434,6 +471,30 @@ def d6_close_on_exec(facts, rep):
 # call to ANY return of Sync::sync passes a call that joins the task.  Unwinding (a panic) is not covered.
 
 
+def _may_joiners(m, body, p, depth=0, seen=None):
+    """blocks of `body` that join the task p directly, or call a function of the crate that contains such a join (whether
+    the callee joins on ALL of its paths is not asked: wrappers typically join `if let Some(controller)`, the same condition
+    under which the task was started)"""
+    import strands as strands_mod
+
+    out = []
+    seen = seen if seen is not None else set()
+    for b, t in body.calls():
+        if body.is_cleanup(b):
+            continue
+        c = t.get("callee") or ""
+        if c == strands_mod.JOIN:
+            j = m.join_at.get((body.id, b))
+            if j and (j["chan"] & p[1]):
+                out.append(b)
+        elif c in m.facts.bodies and m.facts.bodies[c].crate == "nomt" and depth < 4 and c not in seen:
+            seen.add(c)
+            if _may_joiners(m, m.facts.bodies[c], p, depth + 1, seen):
+                out.append(b)
+            seen.discard(c)
+    return out
+
+
 def d7_no_writer_outlives_sync(rep, ctx):
     m = ctx.model
     R = ctx.R
@@ -453,7 +514,7 @@ def d7_no_writer_outlives_sync(rep, ctx):
         for p in sorted(pend, key=repr):
             starters += 1
             n += 1
-            ds = m.dischargers(R, p)
+            ds = _may_joiners(m, R, p)
             reach = R.reachable_flags(R.succ(ed.bb), set(ds) | cleanup)
             esc = sorted(reach & rets)
             tname = ed.target.split("::", 1)[1]
